@@ -132,6 +132,7 @@ class Sh:
         for _ in range(6):
             g = ml.Gen(r, r.choice(["loops", "errors", "functions"]))
             f, p = g.program(nstmts=r.randint(2, 4))
+            if ml.bounded(f, p) is None: continue
             out.append(ml.render(f, p, r))
         base = corpus.harvest(deterministic=True)
         out += r.sample(base, min(12, len(base)))
